@@ -7,8 +7,10 @@ CLAIMS = {
         'emitted bytes equal the concatenation of the parts\' fields (each exactly its configured width, in its byte order, '
         'byte-aligned fields padded to a byte boundary, zero-padded to whole bytes), proved for every field width 1..64, both '
         'byte orders and every cursor position with loop invariants / block contracts; obligations generated from the current source each run.',
-   note='Not yet under contract: the order in which MatchedOperandSet.generate_bytecode and the instruction generator assemble the '
-        'part list, and the parse_operand shape contracts; ByteCodePart.get_value is an assumed (deterministic, effect-free) contract; '
+   note='Also under contract: the opcode / suffix parts built by InstructionBytecodeGenerator (configured value and width, the '
+        'instruction\'s byte order for both) and the fields of an enumeration operand (exactly what its dictionaries give, 0 included). '
+        'Not under contract: the order in which MatchedOperandSet.generate_bytecode arranges operand parts (prefix / suffix / reversed), '
+        'and the other operand types\' parse_operand; ByteCodePart.get_value is an assumed (deterministic, effect-free) contract; '
         'int.to_bytes is axiomatised (validated by sampling); x|y, x&y enter only through exact single-bit / mask identities.'),
  'C02': dict(tech='contract-based deductive verification (pyvc + z3): per-line placement block of the first pass, size/emission contracts of every line class',
    text='Block contract on the body of the engine\'s first pass (placement at the zone cursor / origin value / smallest aligned '
@@ -50,8 +52,9 @@ CLAIMS = {
         'proved to return the result of the FIRST alternative, in list order, whose matcher accepts (and to reject when none does); '
         'NumericExpressionOperand._parse_bytecode_parts never accepts an expression mentioning a register; the documented precedence '
         'of operand types is a constant lemma over the OperandType enum read from the source.',
-   note='Which strings each operand pattern accepts is regex matching (assumed deterministic contracts); specific-operand and '
-        'disallowed-pair handling, and the stable sort of OperandSet.__init__, are not yet under contract.'),
+   note='Also under contract: OperandSetsModel.find_operands_from_operand_sets (one alternative per position; a match is never a '
+        'disallowed combination, compared as an ordered id list). Which strings each operand pattern accepts is regex matching (assumed '
+        'deterministic contracts); explicitly listed (specific) operand combinations and the stable sort of OperandSet.__init__ are not under contract.'),
  'C14': dict(tech='contract-based deductive verification (pyvc + z3) of the rejecting kernels + AST audit of the image-write position',
    text='Every byte-producing line has its bytes generated (so unresolvable labels / violated constraints exit) before any output, '
         'reserved sizes are never negative, relative-offset / label-resolution kernels exit exactly as specified; a mechanical audit of '
@@ -67,8 +70,9 @@ CLAIMS = {
    text='Accepted definitions satisfy: required sections present; min_version gates by semantic-version order; no mnemonic (instruction or '
         'macro, any letter case) is a keyword; macro names differ from instruction names; operand counts equal the lengths of operand sets '
         'and of every listed combination; numeric bytecode ranges not inverted; memory zones inside the address space.',
-   note='packaging.version ordering is trusted (abstract rank); RequiredLanguageLine, register validation and "well-formed definitions are never '
-        'rejected" (no other exit reachable) are not under contract; Instruction / InstructionMacro construction assumed.'),
+   note='Also under contract: the comparison block of RequiredLanguageLine (#require is rejected exactly when the ISA version does not '
+        'satisfy the stated comparison in version order). packaging.version ordering is trusted (abstract rank); register validation and '
+        '"well-formed definitions are never rejected" (no other exit reachable) are not under contract; Instruction / InstructionMacro construction assumed.'),
  'C08': dict(tech='contract-based deductive verification (pyvc + z3): ConditionStack contracts, inert-directive and include gating contracts',
    text='Contracts on the real ConditionStack (process_condition, _push, currently_active, is_muted) against the statement: a branch is '
         'selected iff every enclosing frame is selected, no earlier branch of its chain was, and its own condition holds when the '
